@@ -10,6 +10,8 @@
 
   Cells hold strings (one glyph each), as in the Go code.
 -/
+import D2V.Gen.AsciiCharset
+
 namespace D2V.Canvas
 
 inductive Crash where
@@ -72,10 +74,20 @@ def splitLines (s : List Char) : List (List Char) :=
 def Canvas.drawLine (c : Canvas) (x y : Int) (cells : List (Nat × Char)) : Except Crash Canvas :=
   cells.foldlM (fun c cell => c.set (x + cell.1) y (String.singleton cell.2)) c
 
-/-- `DrawLabel` -/
-def Canvas.drawLabel (c : Canvas) (x y : Int) (label : List Char) : Except Crash Canvas :=
+/-- (rune index, rune) pairs: one column per rune -/
+def runeOffsets : List Char → Nat → List (Nat × Char)
+  | [], _ => []
+  | ch :: r, off => (off, ch) :: runeOffsets r (off + 1)
+
+/-- column offsets of a line's runes: Go's byte offsets (the tree as found) or one per rune -/
+def lineCells (byteOff : Bool) (line : List Char) : List (Nat × Char) :=
+  if byteOff then byteOffsets line 0 else runeOffsets line 0
+
+/-- `DrawLabel`; `byteOff` says which variant the current source implements (regenerated flag) -/
+def Canvas.drawLabel (c : Canvas) (x y : Int) (label : List Char)
+    (byteOff : Bool := D2V.Gen.AsciiCharset.drawLabelByteOffsets) : Except Crash Canvas :=
   if !c.isInBounds x y then .ok c else
-  (splitLines label).zipIdx.foldlM (fun c (line, idx) => c.drawLine x (y + idx) (byteOffsets line 0)) c
+  (splitLines label).zipIdx.foldlM (fun c (line, idx) => c.drawLine x (y + idx) (lineCells byteOff line)) c
 
 /-- the text of row `y` -/
 def Canvas.rowText (c : Canvas) (y : Nat) : String :=
